@@ -321,6 +321,10 @@ def one_input(name, T, data, tier, R, idx, tmpdir, old):
                         if obs != ref[2]:
                             feats = {'a', 'kind:' + kind, 'buf:%s' % ('default' if buf == old else buf),
                                      'longer_than_buffer' if len(data) > buf else 'fits_buffer',
+                                     # K8 needs a position taken before a renumbering and used after it: a renumbering
+                                     # while inside the content of a definite-length constructed element
+                                     'renumbering_inside_definite_constructed' if renumbering_inside_definite(data, buf, U.contains(T, lambda t: t[0] == 'CHOICE'))
+                                     else 'no_renumbering_inside_definite_constructed',
                                      'wrapped_kind' if kind in ('BufferedReader', 'nonseekable') else 'seekable_kind',
                                      'streaming' if streaming_mode else 'oneshot', 'big' if not small else 'small',
                                      'variant:' + (name.split('/')[-1] if '/' in name else name)}
@@ -332,6 +336,43 @@ def one_input(name, T, data, tier, R, idx, tmpdir, old):
                             R.features['a.kind:' + kind] += 1
             if idx % 37 == 0:
                 R.sample({'part': 'a', 'name': name, 'octets': len(data)})
+
+
+def renumbering_inside_definite(data, buf, choice_reentry=False):
+    """Does the wrapper renumber its positions (a mark set more than `buf` octets after the previous
+    renumbering; marks are set at every element start) while the decoder is inside the content of a
+    definite-length constructed element?  Tolerant scan: damaged inputs are followed as far as headers parse."""
+    marks = []      # (start position, inside a definite-length constructed element?)
+
+    def scan(pos, end, depth, inside):
+        while pos < end and depth < 40:
+            if data[pos:pos + 2] == b'\x00\x00':
+                pos += 2
+                continue
+            try:
+                cls, constructed, num, length, p, _ = M.parse_header(data, pos, end)
+            except M.ReadError:
+                marks.append((pos, inside))
+                return
+            marks.append((pos, inside))
+            if choice_reentry and length is not None:
+                # an untagged CHOICE re-enters the item decoder after the header of its alternative, which sets
+                # another mark there - inside the (definite-length) element being measured by the caller
+                marks.append((p, True))
+            if length is None:
+                scan(p, end, depth + 1, inside)
+                return
+            if constructed:
+                scan(p, min(p + length, end), depth + 1, True)
+            pos = p + length
+    scan(0, len(data), 0, False)
+    base = 0
+    for pos, inside in marks:
+        if pos - base > buf:
+            base = pos
+            if inside:
+                return True
+    return False
 
 
 def summarize(obs):
